@@ -46,7 +46,9 @@ def scope(tier, seed):
          'all of length<=5 (3368421) x 4 parsers + block %d of %d of length 6' % (seed % NB6, NB6),
          'characters': 'insert/replace/delete one character (menu of %d) at every position of every '
                        'string of <=3 tokens accepted by some parser' % len(CHARS),
-         'cross feeding': 'printed formulas of size<=2 of each logic to all parsers'}
+         'cross feeding': 'printed formulas of size<=2 of each logic to all parsers',
+         'chains': 'x op1 y op2 z (and 4-operand chains, nested forms) for all 49 operator pairs, bare / '
+                   'parenthesised / under 6 prefixes'}
     if tier == 'quick':
         d['length 5'] = 'block %d of 64' % (seed % 64)
     return d
@@ -61,6 +63,8 @@ def plan(tier, seed):
     for i in range(32):
         sh.append(['chars', i, 32])
     sh.append(['cross'])
+    for i in range(8):
+        sh.append(['chains', i, 8])
     if tier == 'quick':
         for a in range(len(TOKENS)):
             sh.append(['tok5block', a, seed % 64])
@@ -102,6 +106,9 @@ def judge(logic, text, acc, toks=None, want_nontrivial=None):
         return True
     if not members.MEMBER[logic](t):
         acc.violation('accepted-non-member', case, 'a %s formula' % logic, spaces.fstr(t))
+        return True
+    if not members.arity_ok(t):
+        acc.violation('operator-with-undocumented-arity', case, 'documented arity', spaces.fstr(t))
         return True
     yld = refparse.tree_yield(t)
     if toks is None or yld != refparse.string_yield(toks):
@@ -188,6 +195,31 @@ def run_shard(shard, tier, seed, acc):
                         n += 1
                 acc.ev(4, 1 if 0 < n < 4 else 0)
         acc.sample({'text': 'p U$ q', 'from': 'p U q', 'deviation': 'insert $'})
+        return
+    if kind == 'chains':
+        # operator chains and mixed binary operators, 5-9 tokens: x op1 y op2 z [op3 w], optionally
+        # parenthesised and under a prefix operator - the shapes on which n-ary/binary rules differ
+        BIN = ['and', '&', 'or', '|', '-->', 'U', 'R']
+        strings = []
+        for pre in ('', 'A', 'E', 'not', 'X', 'A G', 'E F'):
+            for par in (False, True):
+                for o1 in BIN:
+                    for o2 in BIN:
+                        for atoms in (('p', 'q', 'p'), ('q', 'true', 'p')):
+                            body = '%s %s %s %s %s' % (atoms[0], o1, atoms[1], o2, atoms[2])
+                            strings.append(((pre + ' ') if pre else '') + ('( ' + body + ' )' if par else body))
+                        if o1 == o2:
+                            body = 'p %s q %s p %s q' % (o1, o1, o1)
+                            strings.append(((pre + ' ') if pre else '') + ('( ' + body + ' )' if par else body))
+                            strings.append(((pre + ' ') if pre else '') + '( p %s ( q %s p ) )' % (o1, o2))
+                            strings.append(((pre + ' ') if pre else '') + '( ( p %s q ) %s p )' % (o1, o2))
+        for text in strings[shard[1]::shard[2]]:
+            n = 0
+            for logic in LOGICS:
+                if judge(logic, text, acc):
+                    n += 1
+            acc.ev(4, 1 if 0 < n < 4 else 0)
+        acc.sample({'text': 'A ( p R q R p )', 'family': 'operator chains'})
         return
     if kind == 'cross':
         texts = set()
